@@ -35,12 +35,12 @@ Fixpoint o_replay (s : state) (ls : list (label * obs)) (i : nat) : nat * state 
   end.
 
 Record r_case := RC {
-  r_nh : nat; r_honour : list bool; r_fix5 : bool; r_fix6 : bool; r_fix12 : bool;
+  r_nh : nat; r_unstarted : nat; r_honour : list bool; r_fix5 : bool; r_fix6 : bool; r_fix12 : bool; r_fix16 : bool;
   r_labels : list (label * obs)
 }.
 
 Definition r_init (c : r_case) : state :=
-  init (r_nh c) (fun h => nth h (r_honour c) false) (r_fix5 c) (r_fix6 c) (r_fix12 c).
+  init_u (r_nh c) (r_unstarted c) (fun h => nth h (r_honour c) false) (r_fix5 c) (r_fix6 c) (r_fix12 c) (r_fix16 c).
 
 (** (first rejected label or 0, the model panicked, the model's API trace judged by the acceptor
     has a safety rejection) *)
